@@ -173,6 +173,10 @@ def shard_compositions(sh, part, parts):
         if sh.tier == 'thorough' and si > 6:
             n = min(n, 9)
         rows = make_sequence(rng, n, 3)
+        # every candidate missing-value symbol occurs somewhere, whatever set of symbols is configured
+        for i_, (j_, sym_) in enumerate([(0, '{}'), (0, ''), (2, 'NA'), (1, '{}')]):
+            if n > i_:
+                rows[rng.randrange(n)][j_] = sym_
         args = pipe.make_args(task='identify_rare_values', heuristic='Constant', rare_value_count_upper_bound=rng.choice([0, 1, 2, 5]),
                               missing_value_symbols=rng.choice([',{}', ',{},NA', 'NA', '{}', ',{},', 'NA,{},NA', '']), max_unique_hist_constraint=rng.choice([2, 3, 30000, 30000]))
         ref = None
